@@ -150,13 +150,27 @@ SETUP_MENU[C.GOCEAN_ALG] = ["RaisePSyIR2AlgTrans"]
 # strategies
 # ----------------------------------------------------------------------
 @st.composite
+ROT = [0]     # set per shard in run(): Hypothesis always starts with the
+#               'simplest' example (first element of every sampled_from);
+#               rotating the candidate lists makes that example differ
+#               between shards (deterministic, not a random choice)
+
+
+def rot(seq):
+    seq = list(seq)
+    if not seq:
+        return seq
+    k = ROT[0] % len(seq)
+    return seq[k:] + seq[:k]
+
+
 def plans(draw, api, nsweeps, max_setup=2, family=()):
-    names = [s.name for s in C.specs_for(api)]
+    names = rot(s.name for s in C.specs_for(api))
     if not names:
         raise HarnessError(f"C26: no transformation for tree kind {api}")
     num = min(nsweeps, len(names))
     chosen = []
-    family = [n for n in family if n in names]
+    family = rot(n for n in family if n in names)
     if family:
         # most sweeps from the family the tree was written for
         nfam = min(len(family), max(1, num - 2))
@@ -176,7 +190,7 @@ def plans(draw, api, nsweeps, max_setup=2, family=()):
             "opts": [C.option_spec(draw, spec) for _ in range(3)],
             "seeds": [draw(st.integers(0, 10 ** 6)) for _ in range(6)],
         })
-    menu = [n for n in SETUP_MENU[api] if C.BYNAME[n].cls is not None]
+    menu = rot(n for n in SETUP_MENU[api] if C.BYNAME[n].cls is not None)
     setup = []
     nset = draw(st.sampled_from([0, 0, 1, 1, 2, 3])) if menu and max_setup \
         else 0
@@ -201,7 +215,7 @@ def gen_cases(draw):
 
 @st.composite
 def tuned_cases(draw):
-    theme, names, family, source = draw(pool.tuned_programs())
+    theme, names, family, source = draw(pool.tuned_programs(ROT[0]))
     plan = draw(plans(C.GENERIC, 6, max_setup=3, family=family))
     return {"kind": "src", "api": C.GENERIC, "theme": theme,
             "fragments": names, "source": source, **plan}
@@ -209,8 +223,8 @@ def tuned_cases(draw):
 
 @st.composite
 def src_cases(draw):
-    api = draw(st.sampled_from(sorted(SRC_FILES)))
-    fname = draw(st.sampled_from(SRC_FILES[api]))
+    api = draw(st.sampled_from(rot(sorted(SRC_FILES))))
+    fname = draw(st.sampled_from(rot(SRC_FILES[api])))
     plan = draw(plans(api, 4, max_setup=1))
     path = os.path.join(C.test_files(), fname)
     try:
@@ -224,8 +238,8 @@ def src_cases(draw):
 
 @st.composite
 def psy_cases(draw):
-    api = draw(st.sampled_from([C.LFRIC, C.GOCEAN]))
-    fname = draw(st.sampled_from(PSY_FILES[api]))
+    api = draw(st.sampled_from(rot([C.LFRIC, C.GOCEAN])))
+    fname = draw(st.sampled_from(rot(PSY_FILES[api])))
     dist_mem = draw(st.booleans())
     plan = draw(plans(api, 5))
     return {"kind": "psy", "api": api, "file": fname, "dm": dist_mem, **plan}
@@ -328,9 +342,16 @@ class Sweeper:
                 self.site_count[key] = seen = self.site_count.get(key, 0) + 1
                 if seen == 1:
                     ctx.nontriv([name, res.site])
-                    self.sites.add(f"{key} [{res.phase}]")
+                key3 = f"{key} [{res.phase}]"
+                if key3 not in self.sites:
+                    self.sites.add(key3)
                     if res.phase != "validate":
-                        self.late.add(f"{key} [{res.phase}]")
+                        self.late.add(key3)
+                        ctx.sample({"tree": env.describe().get("file",
+                                                               "generated"),
+                                    "attempt": att, "phase": res.phase,
+                                    "site": res.site, "error": res.msg})
+                    elif len(self.sites) % 40 == 1:
                         ctx.sample({"tree": env.describe().get("file",
                                                                "generated"),
                                     "attempt": att, "phase": res.phase,
@@ -441,19 +462,20 @@ class Sweeper:
 
 def run(ctx):
     used, skipped = C.resolve()
+    ROT[0] = ctx.shard * 5 + ctx.seed * 3
     sweeper = Sweeper(ctx)
     workdir = tempfile.mkdtemp(prefix="verif-c26-")
     cwd = os.getcwd()
     os.chdir(workdir)
     try:
         ctx.hyp(sweeper.run_case, gen_cases(), key=case_key, salt=1,
-                max_examples=ctx.scale(64, 2400), shrink_budget=40)
+                max_examples=ctx.scale(32, 1600), shrink_budget=40)
         ctx.hyp(sweeper.run_case, tuned_cases(), key=case_key, salt=4,
-                max_examples=ctx.scale(64, 2400), shrink_budget=40)
+                max_examples=ctx.scale(64, 3200), shrink_budget=40)
         ctx.hyp(sweeper.run_case, src_cases(), key=case_key, salt=2,
-                max_examples=ctx.scale(32, 320), shrink_budget=40)
+                max_examples=ctx.scale(32, 480), shrink_budget=40)
         ctx.hyp(sweeper.run_case, psy_cases(), key=case_key, salt=3,
-                max_examples=ctx.scale(48, 1600), shrink_budget=40)
+                max_examples=ctx.scale(32, 1600), shrink_budget=40)
     finally:
         os.chdir(cwd)
         shutil.rmtree(workdir, ignore_errors=True)
